@@ -43,9 +43,9 @@ func (a *Act) frameOblige(instr ssa.Instruction, reach, ref, what string) {
 	if !g.checkFrame {
 		return
 	}
-	cond := fmt.Sprintf("(>= %s %s)", ref, g.entry.Next)
+	cond := fmt.Sprintf("(or (= %s 0) (>= %s %s))", ref, ref, g.entry.Next)
 	if g.modset != nil {
-		cond = fmt.Sprintf("(or (>= %s %s) %s)", ref, g.entry.Next, g.modset(ref))
+		cond = fmt.Sprintf("(or (= %s 0) (>= %s %s) %s)", ref, ref, g.entry.Next, g.modset(ref))
 	}
 	g.oblige("frame", a.srcDetail(instr), reach, cond, a.pos(instr.Pos()), what+" writes only memory allocated during the call or listed in modifies")
 }
@@ -363,6 +363,26 @@ func (a *Act) unboxIface(t types.Type, x string, st *State) string {
 	return a.load(st, t, fmt.Sprintf("(pref (ubPtr %s))", b), "0")
 }
 
+// boxShape: constructor of the box of an interface value whose dynamic type is t
+func (a *Act) boxShape(t types.Type, x string) string {
+	b := fmt.Sprintf("(ibox %s)", x)
+	switch a.g.sortOf(t) {
+	case "Int":
+		return fmt.Sprintf("(is-bInt %s)", b)
+	case "Bool":
+		return fmt.Sprintf("(is-bBool %s)", b)
+	case "BSeq":
+		return fmt.Sprintf("(is-bSeq %s)", b)
+	case "Slice":
+		return fmt.Sprintf("(is-bSlice %s)", b)
+	case "Ptr":
+		return fmt.Sprintf("(is-bPtr %s)", b)
+	case "Iface":
+		return "true"
+	}
+	return fmt.Sprintf("(and (is-bPtr %s) (> (pref (ubPtr %s)) 0))", b, b)
+}
+
 // implementsTags: tags of all concrete types known to the program that implement the interface
 func (a *Act) ifaceSatisfied(x string, it *types.Interface) string {
 	g := a.g
@@ -404,6 +424,7 @@ func (a *Act) typeAssert(in *ssa.TypeAssert, st *State, reach string) {
 		return
 	}
 	okT := fmt.Sprintf("(= (itag %s) %d)", x, g.tag(in.AssertedType))
+	g.assumeIf(reach, fmt.Sprintf("(=> %s %s)", okT, a.boxShape(in.AssertedType, x)))
 	v := a.unboxIface(in.AssertedType, x, st)
 	if in.CommaOk {
 		vn := g.def(a.nm(in.Name()+"_v"), g.sortOf(in.AssertedType), fmt.Sprintf("(ite %s %s %s)", okT, v, g.zero(in.AssertedType)))
@@ -719,6 +740,15 @@ func (a *Act) unop(in *ssa.UnOp, st *State, reach string) {
 		if gl, ok := in.X.(*ssa.Global); ok {
 			a.globalFacts(gl, in, reach, st)
 		}
+		if _, isFV := in.X.(*ssa.FreeVar); isFV && g.eng.curModes.NonNilParams && a.top {
+			// captured variables of a closure verified on its own: same API-usage assumption as for parameters
+			switch in.Type().Underlying().(type) {
+			case *types.Pointer:
+				g.assumeIf(reach, fmt.Sprintf("(> (pref %s) 0)", a.env[in]))
+			case *types.Interface, *types.Signature:
+				g.assumeIf(reach, fmt.Sprintf("(not (= %s nilIface))", a.env[in]))
+			}
+		}
 		// bridge between element loads of a []string and its spec-level sequence view (gives the solver the qat term)
 		if ia, ok := in.X.(*ssa.IndexAddr); ok && isString(in.Type()) {
 			if _, isSlice := ia.X.Type().Underlying().(*types.Slice); isSlice {
@@ -765,7 +795,15 @@ func (g *Gen) heapValWF(t types.Type, v string, st *State) string {
 	case *types.Map, *types.Chan:
 		// a map/channel object contains nothing else: its allocation type is exactly the map/channel type
 		return fmt.Sprintf("(and (>= %s 0) (< %s %s) (=> (not (= %s 0)) (= (rtype %s) %d)))", v, v, st.Next, v, v, g.allocTag(allocType{key: "obj:" + u.String(), typ: u}))
+	case *types.Signature:
+		if g.eng.curModes.NonNilParams {
+			return fmt.Sprintf("(not (= %s nilIface))", v)
+		}
 	case *types.Interface:
+		if g.eng.curModes.NonNilParams {
+			// interface values do not hold typed nil pointers (sweep assumption: values come from the decoders / constructors)
+			return fmt.Sprintf("(and (=> (is-bPtr (ibox %s)) (and (> (pref (ubPtr (ibox %s))) 0) (< (pref (ubPtr (ibox %s))) %s))) (=> (is-bSlice (ibox %s)) (< (sref (ubSlice (ibox %s))) %s)) (=> (= (itag %s) 0) (= %s nilIface)))", v, v, v, st.Next, v, v, st.Next, v, v)
+		}
 		return fmt.Sprintf("(and (=> (is-bPtr (ibox %s)) (< (pref (ubPtr (ibox %s))) %s)) (=> (is-bSlice (ibox %s)) (< (sref (ubSlice (ibox %s))) %s)) (=> (= (itag %s) 0) (= %s nilIface)))", v, v, st.Next, v, v, st.Next, v, v)
 	}
 	return ""
@@ -900,6 +938,11 @@ func (a *Act) mapKey(t types.Type, k string) string {
 			return fmt.Sprintf("(strkey %s)", k)
 		}
 		return k
+	case *types.Interface:
+		return fmt.Sprintf("(ifacekey %s)", k)
+	case *types.Struct, *types.Pointer:
+		// unsupported key kinds: an uninterpreted key (lookups are sound but imprecise)
+		return fmt.Sprintf("(ifacekey (mkIface 0 (bOpaque 0)))")
 	}
 	return k
 }
